@@ -26,7 +26,7 @@ LEVEL_NOTE = ("Order is decided in the bounded, restated form 'observed slope ov
               "and end positions stay inside the clip box; the metric is the start cell's, as the implementation documents. RK2 = midpoint rule.")
 RULE = ("cases: onestep (field x scheme x metric, 200 particles, 6 steps), order (field x scheme ladder), helper (analytical.get_velocityN ladder), e2e (ROMS files, linear field, scheme, "
         "dx != dy). Non-trivial: the field has non-zero second derivatives or time dependence so that the three schemes differ; distinct by (kind, field, scheme, metric).")
-MANDATORY = ["e2e_first_release_after_steps_with_an_empty_state", "e2e_reversed_forcing_over_several_files", "e2e_forcing_over_several_files", "e2e_metric_varying_along_eta_on_off_diagonal_subgrid", "field_exactly_at_rest_at_a_step", "helper_sample_function_returning_shared_arrays", "time_step_of_odd_seconds", "e2e_reversed_time_dependent", "inactive_particles_among_the_active", "grid_corner_off_diagonal", "e2e_subgrid_off_diagonal", "onestep_EF", "onestep_RK2", "onestep_RK4", "time_dependent_field", "anisotropic_metric", "piecewise_metric", "order_EF", "order_RK2", "order_RK4",
+MANDATORY = ["time_step_of_a_day_or_more", "e2e_first_release_after_steps_with_an_empty_state", "e2e_reversed_forcing_over_several_files", "e2e_forcing_over_several_files", "e2e_metric_varying_along_eta_on_off_diagonal_subgrid", "field_exactly_at_rest_at_a_step", "helper_sample_function_returning_shared_arrays", "time_step_of_odd_seconds", "e2e_reversed_time_dependent", "inactive_particles_among_the_active", "grid_corner_off_diagonal", "e2e_subgrid_off_diagonal", "onestep_EF", "onestep_RK2", "onestep_RK4", "time_dependent_field", "anisotropic_metric", "piecewise_metric", "order_EF", "order_RK2", "order_RK4",
              "helper_order_1", "helper_order_2", "helper_order_4", "e2e_runs", "velocity_requests_checked"]
 ASSUMPTIONS = ["per-step displacement below about one cell (Courant <= 0.9)", "diffusion off"]
 TIMEOUT = {"quick": 900, "thorough": 3000}
@@ -97,6 +97,10 @@ def _onestep(case, V, sit, cnt, keys):
     if case["idx"] % 4 == 2:
         dt = int(rng.choice([75, 45, 225, 15, 301]))  # an odd number of seconds: half a step is not a whole number of seconds
         _bump(sit, "time_step_of_odd_seconds")
+    if case["idx"] % 12 == 7:
+        dt = int(rng.choice([86400, 129600, 172800, 90000]))  # a day or more per step (coarse climatological runs, examples/stommel)
+        dx, dy = dx * 100.0, dy * 100.0
+        _bump(sit, "time_step_of_a_day_or_more")
     courant = float(rng.uniform(0.05, 0.9))
     speed = courant * min(dx, dy) / dt
     timedep = bool(rng.random() < 0.5)
